@@ -1,6 +1,7 @@
 // Driver for C19: every Unmarshal receiver of the anchored packages is run on (a) a committed
 // corpus, (b) encodings of generated well-formed values (round trip), (c) structure-aware
-// corruptions of such encodings, (d) random bytes / random valid token streams.  The observable
+// corruptions of such encodings, (d) random bytes / random valid token streams, (e) histories of
+// 2-4 decodes whose decoded values are all read back after the last decode (history.go).  The observable
 // is Ok | Err | Panic (panics recovered) plus a validity flag of the accepted value.  For the
 // types modelled in Coq (modelled.go) the bytes, the observed key-parser outcomes and the
 // decoded value are sent so that Model/C19.v decodes the same bytes; for the others only the
@@ -42,6 +43,9 @@ type input struct {
 	Label string `json:"label"`
 	Bytes string `json:"bytes"` // hex
 	Orig  string `json:"orig"`  // hex of the generated pb value (round trip), else ""
+	// kind = history: the decodes of the history, in order (history.go)
+	Steps      []stepIn `json:"steps,omitempty"`
+	Interleave bool     `json:"interleave,omitempty"`
 }
 
 var det = proto.MarshalOptions{Deterministic: true}
@@ -200,7 +204,7 @@ func runCase(em *lib.Emitter, t *typeEntry, kind, label string, bytes []byte, or
 		Nontrivial: nontrivial,
 		Sig: map[string]interface{}{"type": t.name, "kind": kind, "class": o.Class, "valid": o.Valid,
 			"label": fam, "modelled": modelled},
-		In:  input{t.name, kind, label, hex.EncodeToString(bytes), hex.EncodeToString(orig)},
+		In:  input{Type: t.name, Kind: kind, Label: label, Bytes: hex.EncodeToString(bytes), Orig: hex.EncodeToString(orig)},
 		Out: o,
 	})
 }
@@ -528,6 +532,20 @@ func main() {
 			fmt.Fprintln(os.Stderr, "unknown type", in.Type)
 			os.Exit(2)
 		}
+		if in.Kind == "history" {
+			var steps []hstepRaw
+			for _, st := range in.Steps {
+				b, _ := hex.DecodeString(st.Bytes)
+				orig, _ := hex.DecodeString(st.Orig)
+				if st.Kind != "roundtrip" {
+					orig = nil
+				}
+				steps = append(steps, hstepRaw{st.Kind, st.Label, b, orig})
+			}
+			runHistory(em, t, in.Label, steps, in.Interleave, "replay")
+			em.Close("replay", nil)
+			return
+		}
 		b, _ := hex.DecodeString(in.Bytes)
 		orig, _ := hex.DecodeString(in.Orig)
 		runCase(em, t, in.Kind, in.Label, b, orig, "replay")
@@ -546,6 +564,7 @@ func main() {
 	perTypeCorrupt := o.Count(64, 1500)
 	perTypeRandom := o.Count(12, 300)
 	nRound := o.Count(6, 60)
+	nHist := o.Count(10, 80)
 	for _, t := range types {
 		r := rng.Fork(t.name)
 		// --- (b) round trip
@@ -621,8 +640,10 @@ func main() {
 			}
 			runCase(em, t, "random", label, b, nil, fmt.Sprintf("%s/random/%d", t.name, i))
 		}
+		// --- (e) histories: several decodes, every decoded value re-read after the last one
+		histories(em, t, r.Fork("history"), nHist, o.Tier)
 	}
-	em.Close("non-trivial = the input is non-empty and accepted by the protobuf wire parser for the type's message (it reaches the hand-written Unmarshal glue)",
+	em.Close("non-trivial = the input is non-empty and accepted by the protobuf wire parser for the type's message (it reaches the hand-written Unmarshal glue); for a history: at least two of its inputs are",
 		map[string]interface{}{"decoder_types": len(types)})
 }
 
